@@ -1,6 +1,5 @@
-(** Pins of the capture-regex literals, and the unconditional facts about the
-    parameter-expansion loop: quoted tokens are untouched; a fixed point of
-    expand_one_env that still tests positive makes the loop diverge. *)
+(** Pins of the capture-regex literals, the unconditional facts about the parameter-expansion
+    pass (quoted tokens are untouched; it is a map), and worlds for witnesses. *)
 From Coq Require Import List NArith ZArith Bool Lia.
 From Cicada Require Import Base.Chars Base.Tag Base.Regex Gen.ShellRegexes Model.Expand Model.ExpandRef.
 Import ListNotations.
@@ -11,14 +10,6 @@ Local Open Scope N_scope.
 (* ------------------------------------------------------------------ pins *)
 (** The hand-written first-match functions of Model/Expand.v were derived from exactly these
     literals (generated from the source on every run). An edited literal breaks these. *)
-Example pin_env_re1 : src_env_re1 =
-  [94; 40; 46; 42; 63; 41; 92; 36; 40; 91; 65; 45; 90; 97; 45; 122; 48; 45; 57; 95; 93; 43; 124; 92; 36; 124; 92; 63; 41;
-   40; 46; 42; 41; 36].
-Proof. reflexivity. Qed.
-Example pin_env_re2 : src_env_re2 =
-  [40; 46; 42; 63; 41; 92; 36; 92; 123; 40; 91; 65; 45; 90; 97; 45; 122; 48; 45; 57; 95; 93; 43; 124; 92; 36; 124; 92; 63;
-   41; 92; 125; 40; 46; 42; 41; 36].
-Proof. reflexivity. Qed.
 Example pin_dollar_find : src_dollar_find = [92; 36; 92; 40; 40; 46; 43; 41; 92; 41].
 Proof. reflexivity. Qed.
 Example pin_dollar_splice : src_dollar_splice =
@@ -30,11 +21,6 @@ Example pin_dot_split : src_dot_split =
 Proof. reflexivity. Qed.
 Example pin_home : src_home = [94; 126; 40; 63; 80; 60; 116; 97; 105; 108; 62; 46; 42; 41].
 Proof. reflexivity. Qed.
-Example pin_dollar_template : src_dollar_template =
-  [36; 123; 123; 104; 101; 97; 100; 125; 125; 123; 125; 36; 123; 123; 116; 97; 105; 108; 125; 125].
-Proof. reflexivity. Qed.
-Example pin_home_template : src_home_template = [123; 125; 36; 116; 97; 105; 108].
-Proof. reflexivity. Qed.
 (** the range pattern's captures are hand-written too (find_range); its yes/no use is generated *)
 Example pin_brace_range : rx_brace_range_src =
   [92; 123; 40; 45; 63; 91; 48; 45; 57; 93; 43; 41; 92; 46; 92; 46; 40; 45; 63; 91; 48; 45; 57; 93; 43; 41; 40; 92; 46; 92;
@@ -42,64 +28,28 @@ Example pin_brace_range : rx_brace_range_src =
 Proof. reflexivity. Qed.
 
 (* ------------------------------------------------------------------ quoted tokens *)
-Lemma expand_env_tok_quoted f W t : fst t = TSq \/ fst t = TBq -> expand_env_tok f W t = Ok t.
+Lemma expand_env_tok_quoted W t : fst t = TSq \/ fst t = TBq -> expand_env_tok W t = t.
 Proof. intros [H|H]; unfold expand_env_tok; rewrite H; reflexivity. Qed.
 
-Lemma expand_env_quoted f W toks :
-  (forall t, In t toks -> fst t = TSq \/ fst t = TBq) -> expand_env f W toks = Ok toks.
+Lemma expand_env_quoted W toks :
+  (forall t, In t toks -> fst t = TSq \/ fst t = TBq) -> expand_env W toks = toks.
 Proof.
-  induction toks as [|t r IH]; intros H; cbn [expand_env]; [reflexivity|].
+  induction toks as [|t r IH]; intros H; [reflexivity|]. unfold expand_env in *. cbn [map].
   rewrite expand_env_tok_quoted by (apply H; left; reflexivity).
-  cbn [bind]. rewrite IH by (intros x Hx; apply H; right; exact Hx). reflexivity.
+  rewrite IH by (intros x Hx; apply H; right; exact Hx). reflexivity.
 Qed.
 
-(** a single-quoted token inside any line is returned as it is (when the line is expanded at all) *)
-Lemma expand_env_keeps_sq f W pre s post r :
-  expand_env f W (pre ++ (TSq, s) :: post) = Ok r ->
-  exists pre' post', r = pre' ++ (TSq, s) :: post' /\ length pre' = length pre.
-Proof.
-  revert r; induction pre as [|t pre IH]; intros r H; cbn [app expand_env] in H.
-  - rewrite expand_env_tok_quoted in H by (left; reflexivity). cbn [bind] in H.
-    destruct (expand_env f W post) as [p| |]; cbn in H; try discriminate.
-    injection H as <-. exists [], p. split; reflexivity.
-  - destruct (expand_env_tok f W t) as [t'| |]; cbn [bind] in H; try discriminate.
-    destruct (expand_env f W (pre ++ (TSq, s) :: post)) as [q| |] eqn:E; cbn in H; try discriminate.
-    injection H as <-. destruct (IH q eq_refl) as (pre' & post' & -> & L).
-    exists (t' :: pre'), post'. split; [reflexivity|]. cbn. rewrite L. reflexivity.
-Qed.
+(** the pass is a map: it keeps the number, order and tags of the tokens, and a single-quoted
+    token inside any line is returned as it is *)
+Lemma expand_env_app W a b : expand_env W (a ++ b) = expand_env W a ++ expand_env W b.
+Proof. unfold expand_env. apply map_app. Qed.
 
-(* ------------------------------------------------------------------ divergence *)
-Lemma expand_env_loop_S f W t :
-  expand_env_loop (S f) W t = if env_in_token t then expand_env_loop f W (expand_one_env W t) else Ok t.
-Proof. reflexivity. Qed.
+Lemma expand_env_tok_tag W t : fst (expand_env_tok W t) = fst t.
+Proof. unfold expand_env_tok. destruct (fst t) eqn:E; try (destruct (env_in_token (snd t))); cbn; auto. Qed.
 
-(** [while env_in_token(t) { t = expand_one_env(t) }] never ends on a fixed point that tests positive *)
-Lemma expand_env_loop_diverges W t :
-  expand_one_env W t = t -> env_in_token t = true -> forall f, expand_env_loop f W t = OutOfFuel.
-Proof.
-  intros Hfix Hin f. induction f as [|f IH]; [reflexivity|].
-  rewrite expand_env_loop_S, Hin, Hfix. exact IH.
-Qed.
-
-Lemma expand_env_diverges W tg t :
-  tg <> TSq -> tg <> TBq -> expand_one_env W t = t -> env_in_token t = true ->
-  forall f, expand_env f W [(tg, t)] = OutOfFuel.
-Proof.
-  intros H1 H2 Hfix Hin f. cbn [expand_env]. unfold expand_env_tok. cbn [fst snd].
-  rewrite Hin, (expand_env_loop_diverges W t Hfix Hin f).
-  destruct tg; try contradiction; reflexivity.
-Qed.
-
-(** cycles of any length: if the k-fold iterate comes back and every iterate tests positive *)
-Fixpoint iter_one (k : nat) (W : World) (t : str) : str :=
-  match k with O => t | S k' => iter_one k' W (expand_one_env W t) end.
-
-Lemma expand_env_loop_ge f W t r : expand_env_loop f W t = Ok r -> forall g, (f <= g)%nat -> expand_env_loop g W t = Ok r.
-Proof.
-  revert t; induction f as [|f IH]; intros t H g Hg; [discriminate|].
-  destruct g as [|g]; [lia|]. rewrite expand_env_loop_S in *.
-  destruct (env_in_token t); [|exact H]. apply IH; [exact H | lia].
-Qed.
+Lemma expand_env_keeps_sq W pre s post :
+  expand_env W (pre ++ (TSq, s) :: post) = expand_env W pre ++ (TSq, s) :: expand_env W post.
+Proof. rewrite expand_env_app. reflexivity. Qed.
 
 (* ------------------------------------------------------------------ worlds for witnesses *)
 Definition tbl_lookup (tbl : list (str * str)) (k : str) : option str :=
